@@ -5,8 +5,10 @@ import json, os
 V = os.path.dirname(os.path.dirname(os.path.abspath(__file__)))
 claims = json.load(open(os.path.join(V, 'tools', 'claims.json')))
 import glob
+approved = set(open(os.path.join(V, 'tools', 'approved.txt')).read().split())
 for f in sorted(glob.glob(os.path.join(V, 'tools', 'claims.d', '*.json'))):
-    claims['claimed'][os.path.basename(f)[:-5]] = json.load(open(f))
+    if os.path.basename(f)[:-5] in approved:      # claimed only once the lead has run the check on the unchanged tree
+        claims['claimed'][os.path.basename(f)[:-5]] = json.load(open(f))
 ids = [json.loads(l)['id'] for l in open(os.path.join(V, 'properties.jsonl'))]
 checks = []
 for pid in ids:
